@@ -44,14 +44,21 @@ RULE = ('tables 2-8 nodes per axis, magnitudes 1e-40..1, 1-6 wavenumbers, option
         'memory or streamed; discovered by OpacityCache / KTableCache after set_interpolation; nothing configured; put into '
         'the cache by hand with its own mode, with or without a later set_interpolation that may repeat the recorded mode; '
         'a parameter file; a mode set and then taken back), each object evaluated at the drawn point and two cell interiors, '
-        'judged in the mode the cache model (CacheConf.stepX/stepXK, driver_c14) says is in force')
+        'judged in the mode the cache model (CacheConf.stepX/stepXK, driver_c14) says is in force; own-format stream: the '
+        'same through the two loader classes with a file format of their own (Exo-Transmit text tables, NEMESIS binary '
+        'k-tables), every route for each, every second block with very weak tables (entries around / below 1e-36 cm2)')
 ASSUMPTIONS = ['np.searchsorted(a, v) on a sorted array = number of elements < v',
                'grids strictly increasing, T > 0, table entries >= 0 (> 0 in exp mode)',
                'rounding: model on Float vs numpy/numba doubles compared to 1e-9 relative + 1e-13*max|table|',
                'served stream: the containers (pickle, h5py) return the numbers written; a table stored in single precision '
                'tabulates the float32 values; pressures written in bar come back as (Pa/1e5)*1e5; single-precision '
                'tables in containers whose loader keeps float32 (pickle and HDF5 cross-sections, pickle k-tables, streamed '
-               'HDF5 k-tables) are judged at single precision: 5e-5 of the largest node of the cell + 8 float32 subnormal steps']
+               'HDF5 k-tables) are judged at single precision: 5e-5 of the largest node of the cell + 8 float32 subnormal steps',
+               'own-format stream: an Exo-Transmit file tabulates the decimal numbers written (the reader\'s +1e-60 m2 guard '
+               'against log(0) is allowed as an absolute floor); a NEMESIS file tabulates float32 words (axes in single '
+               'precision, k = float32(k/1e-20)*1e-20, entries kept in the float32 normal range) and is judged to 1e-6 of the '
+               'largest node of the cell (the reader forms the product in single precision); a wavenumber sub-range is asked '
+               'for in the object\'s own axis (1e4 / stored wavelength)']
 
 
 def make_opacity(tg, pg, tab, wn, mode, weights=None):
@@ -87,10 +94,12 @@ REGIONS = ['interior', 'Tlo', 'Thi', 'Plo', 'Phi', 'TloPlo', 'TloPhi', 'ThiPlo',
            'bnode_out', 'bnode_in', 'corner_node']
 
 
-def gen_case(rng, k, via_bar=False, single=False, layout=None):
+def gen_case(rng, k, via_bar=False, single=False, layout=None, erange=(-40.0, 0.0), axes=None):
     """`via_bar`: the pressure axis is the one a container storing bar gives back ((Pa / 1e5) * 1e5); `single`: the table
     holds values representable in single precision (what a container storing float32 tabulates); `layout`: force the
-    cross-section ('xsec') or k-table ('ktable') layout"""
+    cross-section ('xsec') or k-table ('ktable') layout; `erange`: decades the table's magnitude (cm2) is drawn from;
+    `axes`: (tg, pg) -> (tg, pg), the axes a container tabulates (applied before the point is drawn, so that node / edge /
+    ulp points refer to the tabulated axes)"""
     nT = int(rng.integers(2, 9))
     nP = int(rng.integers(2, 9))
     tg = np.sort(rng.choice(np.arange(50, 4000, 7.0), size=nT, replace=False)) + rng.random() * 3
@@ -99,12 +108,14 @@ def gen_case(rng, k, via_bar=False, single=False, layout=None):
     pg = 10 ** np.sort(rng.choice(np.linspace(plo, phi, 64), size=nP, replace=False))
     if via_bar:
         pg = (pg / 1e5) * 1e5
+    if axes is not None:
+        tg, pg = axes(tg, pg)
     mode = 'linear' if rng.random() < 0.5 else 'exp'
     nwn = int(rng.integers(1, 7))
     ng = 0 if rng.random() < 0.6 else int(rng.integers(1, 5))
     if layout is not None:
         ng = 0 if layout == 'xsec' else max(ng, 1)
-    e = rng.uniform(-40, 0)
+    e = rng.uniform(*erange)
     shape = (nP, nT, nwn) if ng == 0 else (nP, nT, nwn, ng)
     tab = 10 ** (e + rng.uniform(-2, 2, size=shape))
     tab = np.minimum(tab, 1.0)
@@ -388,6 +399,52 @@ MODES = ['linear', 'exp']
 # single-precision allowance below (DESIGN §5), all others at double precision
 SINGLE_REL, SINGLE_FLOOR = 5e-5, 8 * 1.401298464324817e-45     # float32: eps 6e-8 x conditioning; smallest subnormal
 SINGLE_KEPT = {('pickle', None), ('hdf', None), ('kpickle', None), ('khdf', 'streamed')}
+# ---- containers with a format of their own (round 6): the Exo-Transmit text table (`opac<mol>.dat`: wavelengths in m, pressures
+# in bar, cross-sections in m2, one block per wavelength) read by ExoTransmitOpacity, and the NEMESIS binary k-table
+# (`<mol>_*.kta`: float32 words; wavelengths in micron, pressures in bar, k-coefficients in units of 1e-20 cm2) read by
+# NemesisKTables.  Each has its OWN loader class with its own `discover()`, so the configuration routes reach them by code
+# the pickle / HDF5 containers never run.  What such a file tabulates:
+#   exo      the numbers written (decimal text round-trips doubles); the reader adds 1e-60 m2 to every entry (1e-20 below the
+#            smallest magnitude of the quantifier): allowed as an absolute floor, nothing else
+#   nemesis  float32 words: axes rounded to single precision, k = float32(k / 1e-20) * 1e-20; the reader forms that product
+#            in single precision (2 roundings, 1.2e-7) before widening, hence tables are kept inside the float32 normal
+#            range (>= 2e-38 cm2 or exactly 0) and judged to 1e-6 of the largest node of the cell
+OWN_FORMAT = ['exo', 'nemesis']
+XSEC_CONTAINERS = ('pickle', 'hdf', 'exo')
+EXO_OFFSET = 1e-60 * (1 + 1e-9)
+NEMESIS_REL, NEMESIS_MIN = 1e-6, 2e-38
+WEAK = (-40.0, -36.0)       # quota: a very weak absorber, every entry around / below 1e-36 cm2
+WEAK_NEMESIS = (-36.0, -34.0)       # the same at the lower end of what the float32 words of a .kta file can hold
+
+
+def nemesis_axes(tg, pg):
+    """the axes a .kta file tabulates: float32 temperatures, float32 pressures in bar (widened, then * 1e5 by the reader)"""
+    return (np.asarray(tg, np.float32).astype(float),
+            (np.asarray(pg, float) / 1e5).astype(np.float32).astype(float) * 1e5)
+
+
+def nemesis_table(tab):
+    """the k-coefficients a .kta file tabulates for the table `tab` (cm2): float32 words in units of 1e-20 cm2"""
+    tab = np.where(tab > 0, np.maximum(tab, NEMESIS_MIN), 0.0)
+    return (tab / 1e-20).astype(np.float32).astype(float) * 1e-20
+
+
+def write_kta(path, c):
+    """NEMESIS k-table layout as NemesisKTables._decode_ktables reads it: 10 header words (int32: [1] number of wavelengths,
+    [5] NP, [6] NT, [7] NQ; float32: [2] first wavelength), g-samples, weights, 2 words, pressures (bar), temperatures,
+    wavelengths (micron, ascending), then k[wavelength, P, T, g] / 1e-20"""
+    wn, tg, pg, tab, w = (np.asarray(c[k], float) for k in ('wn', 'tg', 'pg', 'tab', 'weights'))
+    wl = (10000.0 / wn)[::-1]
+    head = np.zeros(10, dtype=np.int32)
+    head[0], head[1] = 1, len(wn)
+    head[5], head[6], head[7] = len(pg), len(tg), len(w)
+    hf = head.view(np.float32)
+    hf[2] = wl[0]
+    body = (tab.transpose(2, 0, 1, 3)[::-1] / 1e-20).astype(np.float32)
+    samples = ((np.cumsum(w) - w / 2)).astype(np.float32)
+    parts = [hf, samples, w.astype(np.float32), np.zeros(2, dtype=np.int32).view(np.float32),
+             (pg / 1e5).astype(np.float32), tg.astype(np.float32), wl.astype(np.float32), body.ravel()]
+    np.concatenate(parts).astype(np.float32).tofile(path)
 
 
 def write_container(path_dir, container, mol, c, single):
@@ -403,6 +460,12 @@ def write_container(path_dir, container, mol, c, single):
         else:
             path = os.path.join(path_dir, 'table_of_' + mol + '.h5')
             W.write_hdf(path, tab, 'bar', mol)
+    elif container == 'exo':
+        path = os.path.join(path_dir, 'opac' + mol + '.dat')
+        W.write_exo(path, dict(wn=c['wn'], t=c['tg'], p=c['pg'], x=x))
+    elif container == 'nemesis':
+        path = os.path.join(path_dir, mol + '_R100.kta')
+        write_kta(path, c)
     else:
         ktab = dict(wn=c['wn'], t=c['tg'], p=c['pg'], k=x, weights=c['weights'])
         if container == 'kpickle':
@@ -426,15 +489,33 @@ def construct(container, path, mode, streamed=False):
         return HDF5Opacity(path, in_memory=not streamed, **kw)
     if container == 'kpickle':
         return PickleKTable(path, **kw)
+    if container == 'exo':
+        from taurex.opacity.exotransmit import ExoTransmitOpacity
+        return ExoTransmitOpacity(path, **kw)
+    if container == 'nemesis':
+        from taurex.opacity.ktables.nemesisktables import NemesisKTables
+        return NemesisKTables(path, **kw)
     return HDF5KTable(path, in_memory=not streamed, **kw)
 
 
-def gen_served(rng, k):
-    container = CONTAINERS[k % 4]
-    single = (k // 4) % 3 == 2
-    route = ROUTES[(k // 12) % len(ROUTES)]
+def gen_served(rng, k, own_format=False):
+    """`own_format`: the stream of the containers with a format and loader class of their own (OWN_FORMAT), every route for
+    each; every second block of 14 holds very weak tables (WEAK)"""
+    kw = {}
+    if own_format:
+        container = OWN_FORMAT[k % 2]
+        single = False
+        route = ROUTES[(k // 2) % len(ROUTES)]
+        if (k // 14) % 2 == 1:
+            kw['erange'] = WEAK if container == 'exo' else WEAK_NEMESIS
+        if container == 'nemesis':
+            kw['axes'] = nemesis_axes
+    else:
+        container = CONTAINERS[k % 4]
+        single = (k // 4) % 3 == 2
+        route = ROUTES[(k // 12) % len(ROUTES)]
     c = gen_case(rng, int(rng.integers(0, 15 * 8)), via_bar=True, single=single,
-                 layout='xsec' if container in ('pickle', 'hdf') else 'ktable')
+                 layout='xsec' if container in XSEC_CONTAINERS else 'ktable', **kw)
     # every served object is also evaluated at two points strictly inside cells (where the two modes differ)
     tg, lp = c['tg'], np.log10(c['pg'])
     c['extra'] = []
@@ -453,9 +534,13 @@ def gen_served(rng, k):
         # the hand-made object may interpolate in exp mode (its own choice or its class default): positive entries only
         pos = c['tab'][c['tab'] > 0]
         c['tab'] = np.where(c['tab'] == 0, pos.min() if pos.size else float(np.float32(1e-30)), c['tab'])
-    if route == 'hand-then-set' and k % 2 == 0:
+    if route == 'hand-then-set' and (k % 2 == 0 if not own_format else (k // 14) % 2 == 0):
         # corner quota: the mode asked for is the one already recorded (None standing for linear), so the set is a repeat
         c['recorded'] = c['mode'] if (c['mode'] == 'exp' or rng.random() < 0.5) else None
+    if container == 'nemesis':
+        c['tab'] = nemesis_table(c['tab'])
+        # (wavelengths are float32 words as well: the wavenumber axis the file tabulates)
+        c['wn'] = 10000.0 / (10000.0 / c['wn']).astype(np.float32).astype(float)
     return c
 
 
@@ -490,7 +575,7 @@ def eval_served(ctx, c):
     tg, pg, tab, wn = (np.asarray(c[k], float) for k in ('tg', 'pg', 'tab', 'wn'))
     T, P, sub = c['T'], c['P'], c.get('sub')
     container, route, mol, single = c['container'], c['route'], c['mol'], bool(c['single'])
-    isk = container in ('kpickle', 'khdf')
+    isk = container in ('kpickle', 'khdf', 'nemesis')
     weights = None if c.get('weights') is None else np.asarray(c['weights'], float)
     c = dict(c, tg=tg, pg=pg, tab=tab, wn=wn, weights=weights)
     req = None if sub is None else wn[sub[0]:sub[1] + 1].copy()
@@ -512,8 +597,11 @@ def eval_served(ctx, c):
         else:
             # ---- the real history, and the same history on the cache model
             hist = served_history(c)
-            toks = ['1', '1', '1', {'hdf': '0', 'pickle': '1', 'kpickle': '3', 'khdf': '4'}[container], '0', C.S(mol), C.S(mol),
-                    str(len(hist))]
+            # (the cache machines read a file's format only to decide `in_memory` of an HDF5 cross-section; the mode they hand to
+            # the constructor is the same for every loader class -- Props/C04.lean: discovered_mode_any_class -- so a NEMESIS
+            # file is described to the k-table machine as a k-table file of the pickle kind)
+            toks = ['1', '1', '1', {'hdf': '0', 'pickle': '1', 'exo': '2', 'kpickle': '3', 'khdf': '4', 'nemesis': '3'}[container],
+                    '0', C.S(mol), C.S(mol), str(len(hist))]
             obj = None
             keep = []
             for h in hist:
@@ -568,8 +656,18 @@ def eval_served(ctx, c):
         scale = float(tab.max()) / 1e4
         nontrivial = bool(tab.max() > tab.min())
         points = [(T, P, sub, c.get('region'))] + [(float(a), float(b), None, 'cell-interior') for a, b in c.get('extra') or []]
+        own_wn = wn
+        if container in OWN_FORMAT:
+            # these files store wavelengths: a wavenumber sub-range is asked for in the object's own (reciprocal) axis
+            own_wn = np.asarray(obj.wavenumberGrid, float)
+            if not ctx.check_close('wavenumber axis of the served table (1e4 / stored wavelength)', own_wn, wn,
+                                   dict(small, wn=wn), rel=1e-12):
+                return
+            ctx.bucket('served:table-magnitude:' + container + ':' + ('below-1e-36cm2' if 0 < float(tab.max()) < 1e-36 else
+                                                    'some-entry-below-1e-36cm2' if np.any((tab > 0) & (tab < 1e-36))
+                                                    else 'all-entries-above-1e-36cm2'))
         for (T, P, sub, region) in points:
-            req = None if sub is None else wn[sub[0]:sub[1] + 1].copy()
+            req = None if sub is None else own_wn[sub[0]:sub[1] + 1].copy()
             try:
                 out = np.asarray(obj.opacity(T, P, req), float).ravel()
             except Exception as e:
@@ -583,13 +681,17 @@ def eval_served(ctx, c):
             rel, floor = (SINGLE_REL, SINGLE_FLOOR) if todo else (1e-9, 0.0)
             if todo:
                 ctx.bucket('served:single-precision-kept-by-loader(judged at single precision):' + container)
+            if container == 'exo':
+                floor = EXO_OFFSET
+            if container == 'nemesis':
+                rel = NEMESIS_REL
             ctx.case(key=('served', container, route, mode, single, region) if nontrivial else None,
                      sample=dict(small, T=T, P=P, mode=mode, impl=out[:3], model=mod[:3]), bucket='served:region:' + str(region))
             ctx.bucket('served:mode:' + mode)
             ctx.check_close('opacity() of the table served from a real container vs Interp.computeOpacity in the mode the '
                             'configuration selects (CacheConf)', out, mod,
                             dict(small, T=T, P=P, sub=sub, mode=mode, tg=tg, pg=pg, tab=tab), rel=rel,
-                            abs_=(1e-6 if todo else 1e-13) * scale + floor)
+                            abs_=(1e-6 if todo else 1e-13) * scale + floor + (NEMESIS_REL * scale if container == 'nemesis' else 0))
             # (a replay evaluates the judged point first: the failing point becomes the case's own point)
             predicates(ctx, out, tg, pg, tab, tabs, T, P, mode,
                        dict(full, T=T, P=P, sub=sub, region=region, extra=[], mode_in_force=mode),
@@ -613,6 +715,9 @@ def run(ctx):
     n = ctx.n(360, 12000)
     for k in range(n):
         eval_case(ctx, gen_case(ctx.rng, k))
+    # (round-6 stream after the older ones, whose random draws it leaves as they were)
+    for k in range(ctx.n(56, 1120)):
+        eval_served(ctx, gen_served(ctx.rng, k, own_format=True))
     # malformed stream (outside the quantifier): unsorted grid / non-positive T — recorded, never judged
     for k in range(ctx.n(10, 100)):
         c = gen_case(ctx.rng, k)
